@@ -104,6 +104,7 @@ func init() {
 	c12.Harnesses = append(c12.Harnesses,
 		ch("verifHarnessC12ApplyUpdates", map[string]int{"names": 2}, map[string]int{"names": 3}, []string{"end"}, "applyUpdates with an arbitrary update set: invariant J, lock set, handles keep their names, values replaced never mutated"),
 		ch("verifHarnessC19HandleStamps", map[string]int{"names": 2}, map[string]int{"names": 3}, []string{"end-known"}, "a handle call returns its own installed bytes, sends no request, releases the lock"),
+		ch("verifHarnessC12HandleSeesInstall", map[string]int{"names": 2}, map[string]int{"names": 3}, []string{"end"}, "a handle obtained earlier returns each newly installed value, in install order, without any request"),
 		ch("verifHarnessC12Close", map[string]int{"names": 2}, map[string]int{"names": 3}, []string{"end"}, "Close cancels the poller and returns; handles keep serving afterwards"),
 		ch("verifHarnessC16Lookup", map[string]int{"names": 2}, map[string]int{"names": 3}, []string{"end-installed", "end-failed", "end-known", "end-disabled"}, "lookup under lock-set obligations: no request under the lock"),
 		ch("verifHarnessC11Refresh", map[string]int{"names": 2}, map[string]int{"names": 3}, []string{"end-ok"}, "poll keeps invariant J"))
